@@ -96,14 +96,22 @@ def guard_truncation(ctx):
         raise core.Infra("%d calls were not executed because the probe kept aborting on listed findings" % k)
 
 
-def judge(ctx, module, execs, name, chunks=8, heap="3g"):
-    """Hand executions (lists of monitor events, first a Reset) to a TLA+ monitor; returns its rejections."""
-    fails, labels, info = tlc.validate_execs(module + ".tla", module + ".cfg", execs, ctx.workdir, name,
-                                             chunks=chunks, heap=heap)
-    ctx.add_validation(info, len(execs))
-    for lab, n in labels.items():
-        ctx.extra.setdefault("design_labels", {})
-        ctx.extra["design_labels"][lab] = ctx.extra["design_labels"].get(lab, 0) + n
+def judge(ctx, module, execs, name, chunks=8, heap="3g", batch=600):
+    """Hand executions (lists of monitor events, first a Reset) to a TLA+ monitor; returns its rejections.
+    Large runs are validated `batch` executions at a time (`chunks` TLC processes each) so that no single
+    TLC process has to hold more than a few thousand recorded lines."""
+    fails = []
+    for lo in range(0, len(execs), batch):
+        part = execs[lo:lo + batch]
+        fs, labels, info = tlc.validate_execs(module + ".tla", module + ".cfg", part, ctx.workdir, name,
+                                              chunks=chunks, heap=heap)
+        ctx.add_validation(info, len(part))
+        for f in fs:
+            f["exec"] += lo
+        fails += fs
+        for lab, n in labels.items():
+            ctx.extra.setdefault("design_labels", {})
+            ctx.extra["design_labels"][lab] = ctx.extra["design_labels"].get(lab, 0) + n
     return fails
 
 
